@@ -184,6 +184,7 @@ func wordOrigin(v ssa.Value, container string) (ssa.Value, ssa.Value, bool) {
 func runC13(c *Ctx, w *World, r *Report) {
 	names := []string{"bitmap.NextOne", "bitmap.PrevOne"}
 	fns, ok := requireFuncs(w, r, names...)
+	ReportMaskWord(w, r, names...)
 	ReportScale(w, r, names...)
 	ReportPair(w, r, names...)
 	ReportRound(w, r, names...)
